@@ -204,10 +204,13 @@ where
                             }
                             continue;
                         }
+                        // The string runs up to the terminator (which may come
+                        // at once). The command number is what precedes the
+                        // first `;`, the text is what follows it.
                         let mut param = "".to_owned();
+                        let mut accu = code;
 
                         'param_loop: loop {
-                            let mut accu = co.yield_(None).unwrap_or_default();
                             if accu == ESC {
                                 accu.push_str(&co.yield_(None).unwrap_or_default());
                             }
@@ -217,15 +220,16 @@ where
                             } else {
                                 param.push_str(&accu);
                             }
+                            accu = co.yield_(None).unwrap_or_default();
                         }
 
-                        param = param.chars().skip(1).collect();
-
-                        if "01".contains(&code) {
-                            listener.lock().unwrap().set_icon_name(&param);
-                        }
-                        if "02".contains(&code) {
-                            listener.lock().unwrap().set_title(&param);
+                        if let Some((code, text)) = param.split_once(';') {
+                            if code == "0" || code == "1" {
+                                listener.lock().unwrap().set_icon_name(text);
+                            }
+                            if code == "0" || code == "2" {
+                                listener.lock().unwrap().set_title(text);
+                            }
                         }
                     }
                 }
@@ -341,10 +345,13 @@ where
                             }
                             continue;
                         }
+                        // The string runs up to the terminator (which may come
+                        // at once). The command number is what precedes the
+                        // first `;`, the text is what follows it.
                         let mut param = "".to_owned();
+                        let mut accu = code;
 
                         'param_loop: loop {
-                            let mut accu = co.yield_(None).unwrap_or_default();
                             if accu == ESC {
                                 accu.push_str(&co.yield_(None).unwrap_or_default());
                             }
@@ -354,15 +361,16 @@ where
                             } else {
                                 param.push_str(&accu);
                             }
+                            accu = co.yield_(None).unwrap_or_default();
                         }
 
-                        param = param.chars().skip(1).collect();
-
-                        if "01".contains(&code) {
-                            listener.lock().unwrap().set_icon_name(&param);
-                        }
-                        if "02".contains(&code) {
-                            listener.lock().unwrap().set_title(&param);
+                        if let Some((code, text)) = param.split_once(';') {
+                            if code == "0" || code == "1" {
+                                listener.lock().unwrap().set_icon_name(text);
+                            }
+                            if code == "0" || code == "2" {
+                                listener.lock().unwrap().set_title(text);
+                            }
                         }
                     }
                 }
